@@ -195,6 +195,111 @@ theorem missingNodes_spec_node (C : Crypto) (bs : Array Bytes) (m : Nat) (t : Tr
 def honestHash (C : Crypto) (bs : Array Bytes) (c : Core) (d : Disk) (d0 o0 : Nat) : Proof :=
   ⟨c.tree.fork, none, some ⟨Flat.index d0 o0, nodeAt C bs d0 o0 :: sibPath C bs d0 o0 (c.tree.missingNodes d.tree (Flat.index d0 o0))⟩, none, none⟩
 
+/-- the nodes a hash answer stores -/
+def hashNodes (C : Crypto) (bs : Array Bytes) (c : Core) (d : Disk) (d0 o0 : Nat) : List Node :=
+  nodeAt C bs d0 o0 :: downPath C bs d0 o0 (c.tree.missingNodes d.tree (Flat.index d0 o0))
+
+/-- the core right after a hash answer has been logged and committed, before the periodic flush -/
+def hashCore (C : Crypto) (bs : Array Bytes) (c : Core) (d : Disk) (d0 o0 : Nat) : Core :=
+  { c with oplog := (Oplog.appendEntry c.oplog { treeNodes := hashNodes C bs c d d0 o0, treeUpgrade := none, bitfield := none }).1, tree := { c.tree with unflushed := insertAll c.tree.unflushed (hashNodes C bs c d d0 o0) } }
+
+theorem hash_shape (C : Crypto) (hC : HashWF C) (bs : Array Bytes) (c : Core) (d : Disk) (held : Nat → Bool) (h : RepR C bs c d held)
+    (d0 o0 : Nat) (hin0 : (o0 + 1) * 2 ^ d0 ≤ bs.size) :
+    c.verifyAndApply C d (honestHash C bs c d d0 o0)
+      = { core := (hashCore C bs c d d0 o0).maybeFlush.1, result := .ok true,
+          journal := (Oplog.appendEntry c.oplog { treeNodes := hashNodes C bs c d d0 o0, treeUpgrade := none, bitfield := none }).2 ++ (hashCore C bs c d d0 o0).maybeFlush.2,
+          events := Core.appliedEvents (honestHash C bs c d d0 o0) none } := by
+  obtain ⟨hstored, hin, hd0⟩ := missingNodes_spec_node C bs bs.size c.tree d.tree h.closed.sparse h.small.1 d0 o0 hin0
+  have hv := hash_changeset_exact C bs c.tree d.tree c.publicKey d0 o0 (c.tree.missingNodes d.tree (Flat.index d0 o0)) c.tree.fork hd0 hstored
+  have hp0 : honestHash C bs c d d0 o0 = ⟨c.tree.fork, none, some ⟨Flat.index d0 o0, nodeAt C bs d0 o0 :: sibPath C bs d0 o0 (c.tree.missingNodes d.tree (Flat.index d0 o0))⟩, none, none⟩ := rfl
+  generalize hk : c.tree.missingNodes d.tree (Flat.index d0 o0) = k at hstored hin hv hp0
+  generalize hcs : ({ c.tree.changeset with rnodes := upPath C bs d0 o0 k ++ [nodeAt C bs d0 o0] } : Changeset) = cs at hv
+  have hup : cs.upgraded = false := by rw [← hcs]; rfl
+  have hnodes : cs.nodes = nodeAt C bs d0 o0 :: downPath C bs d0 o0 k := by rw [← hcs]; simp [Changeset.nodes, upPath_reverse]
+  have hcmt : c.tree.commitable cs = true := by rw [← hcs]; simp [Tree.commitable, Tree.changeset]
+  have hds : Core.dataStep c d (honestHash C bs c d d0 o0) cs = .ok ([], none) := by
+    rw [hp0]; simp [Core.dataStep]
+  generalize htr : ({ c.tree with unflushed := insertAll c.tree.unflushed (nodeAt C bs d0 o0 :: downPath C bs d0 o0 k) } : Tree) = tr
+  have hcommit : c.tree.commit cs = .ok tr := by
+    rw [← htr]
+    simp only [Tree.commit, hcmt, hup, Bool.not_true, Bool.false_eq_true, ite_false, Bool.false_and, hnodes, insertAll]
+  have hp : (honestHash C bs c d d0 o0).fork = c.tree.fork := rfl
+  have hvv : verifyProof C c.tree d.tree (honestHash C bs c d d0 o0) c.publicKey = .ok cs := by rw [hp0]; exact hv
+  generalize hc1 : ({ c with oplog := (Oplog.appendEntry c.oplog (Core.entryOf cs none c.header).1).1, header := (Core.entryOf cs none c.header).2, bitfield := c.bitfield, tree := tr } : Core) = c1
+  have hshape : c.verifyAndApply C d (honestHash C bs c d d0 o0)
+      = { core := c1.maybeFlush.1, result := .ok true,
+          journal := (Oplog.appendEntry c.oplog (Core.entryOf cs none c.header).1).2 ++ c1.maybeFlush.2,
+          events := Core.appliedEvents (honestHash C bs c d d0 o0) none } := by
+    unfold Core.verifyAndApply
+    simp only [hp, ne_eq, not_true_eq_false, ite_false, hvv, hcmt, Bool.not_true, Bool.false_eq_true, hds]
+    unfold Core.applyVerified
+    simp only [hcommit, Core.finishApply, List.nil_append, ← hc1]
+  have hent : (Core.entryOf cs none c.header) = ({ treeNodes := nodeAt C bs d0 o0 :: downPath C bs d0 o0 k, treeUpgrade := none, bitfield := none }, c.header) := by
+    simp only [Core.entryOf, hup, Bool.false_eq_true, ite_false, hnodes]
+  rw [hshape, ← hc1, ← htr, hent]
+  simp only [hashCore, hashNodes, hk]
+
+theorem hashCore_repr (C : Crypto) (hC : HashWF C) (bs : Array Bytes) (c : Core) (d : Disk) (held : Nat → Bool) (h : RepR C bs c d held)
+    (d0 o0 : Nat) (hin0 : (o0 + 1) * 2 ^ d0 ≤ bs.size) :
+    RepR C bs (hashCore C bs c d d0 o0)
+      (d.applyAll (Oplog.appendEntry c.oplog { treeNodes := hashNodes C bs c d d0 o0, treeUpgrade := none, bitfield := none }).2) held := by
+  obtain ⟨hstored, hin, hd0⟩ := missingNodes_spec_node C bs bs.size c.tree d.tree h.closed.sparse h.small.1 d0 o0 hin0
+  have hv := hash_changeset_exact C bs c.tree d.tree c.publicKey d0 o0 (c.tree.missingNodes d.tree (Flat.index d0 o0)) c.tree.fork hd0 hstored
+  have hp0 : honestHash C bs c d d0 o0 = ⟨c.tree.fork, none, some ⟨Flat.index d0 o0, nodeAt C bs d0 o0 :: sibPath C bs d0 o0 (c.tree.missingNodes d.tree (Flat.index d0 o0))⟩, none, none⟩ := rfl
+  generalize hk : c.tree.missingNodes d.tree (Flat.index d0 o0) = k at hstored hin hv hp0
+  generalize hcs : ({ c.tree.changeset with rnodes := upPath C bs d0 o0 k ++ [nodeAt C bs d0 o0] } : Changeset) = cs at hv
+  have hup : cs.upgraded = false := by rw [← hcs]; rfl
+  have hnodes : cs.nodes = nodeAt C bs d0 o0 :: downPath C bs d0 o0 k := by rw [← hcs]; simp [Changeset.nodes, upPath_reverse]
+  have hcmt : c.tree.commitable cs = true := by rw [← hcs]; simp [Tree.commitable, Tree.changeset]
+  have hds : Core.dataStep c d (honestHash C bs c d d0 o0) cs = .ok ([], none) := by
+    rw [hp0]; simp [Core.dataStep]
+  generalize htr : ({ c.tree with unflushed := insertAll c.tree.unflushed (nodeAt C bs d0 o0 :: downPath C bs d0 o0 k) } : Tree) = tr
+  have hcommit : c.tree.commit cs = .ok tr := by
+    rw [← htr]
+    simp only [Tree.commit, hcmt, hup, Bool.not_true, Bool.false_eq_true, ite_false, Bool.false_and, hnodes, insertAll]
+  have hp : (honestHash C bs c d d0 o0).fork = c.tree.fork := rfl
+  have hvv : verifyProof C c.tree d.tree (honestHash C bs c d d0 o0) c.publicKey = .ok cs := by rw [hp0]; exact hv
+  generalize hc1 : ({ c with oplog := (Oplog.appendEntry c.oplog (Core.entryOf cs none c.header).1).1, header := (Core.entryOf cs none c.header).2, bitfield := c.bitfield, tree := tr } : Core) = c1
+  have hshape : c.verifyAndApply C d (honestHash C bs c d d0 o0)
+      = { core := c1.maybeFlush.1, result := .ok true,
+          journal := (Oplog.appendEntry c.oplog (Core.entryOf cs none c.header).1).2 ++ c1.maybeFlush.2,
+          events := Core.appliedEvents (honestHash C bs c d d0 o0) none } := by
+    unfold Core.verifyAndApply
+    simp only [hp, ne_eq, not_true_eq_false, ite_false, hvv, hcmt, Bool.not_true, Bool.false_eq_true, hds]
+    unfold Core.applyVerified
+    simp only [hcommit, Core.finishApply, List.nil_append, ← hc1]
+  have hj1 : ∀ op ∈ (Oplog.appendEntry c.oplog (Core.entryOf cs none c.header).1).2, op.store = .oplog := Journal.appendEntry_store _ _
+  have htree : (d.applyAll (Oplog.appendEntry c.oplog (Core.entryOf cs none c.header).1).2).tree = d.tree :=
+    LiveRefine.tree_of_applyAll _ _ (fun op hop => by rw [hj1 op hop]; decide)
+  have hdata : (d.applyAll (Oplog.appendEntry c.oplog (Core.entryOf cs none c.header).1).2).data = d.data :=
+    LiveRefine.data_of_applyAll _ _ (fun op hop => by rw [hj1 op hop]; decide)
+  have hc1t : c1.tree = tr := by rw [← hc1]
+  have hc1b : c1.bitfield = c.bitfield := by rw [← hc1]
+  have hc1h : c1.header = c.header := by rw [← hc1]; simp only [Core.entryOf, hup, Bool.false_eq_true, ite_false]
+  obtain ⟨hcl, _, hold⟩ := path_commit_closed C hC bs c.tree d.tree h.closed d0 o0 k hstored hin tr (by rw [← htr]) (by rw [← htr])
+  have hrep1 : RepR C bs c1 (d.applyAll (Oplog.appendEntry c.oplog (Core.entryOf cs none c.header).1).2) held := by
+    refine ⟨(by rw [hc1t, htree]; exact hcl), (by rw [hc1t, ← htr]; exact h.roots), (by rw [hc1t, ← htr]; exact h.bytes), ?_,
+      (by rw [htree]; exact h.aligned), (by intro i; rw [hc1b]; exact h.bits i), h.heldLt, ?_, ?_, (by rw [hc1b, hc1h]; exact h.contig), h.small⟩
+    · rw [hc1t, ← htr]
+      apply mapWF_insertAll _ _ h.mapwf
+      intro n hn
+      obtain ⟨dd, o, rfl, hb⟩ := pathNodes_bound C bs d0 o0 k bs.size hin n hn
+      refine ⟨nodeAt_hash_len C hC bs dd o, ?_⟩
+      have h1 := nodeAt_length_le C bs dd o
+      have h2 := psum_mono bs hb
+      have := h.small.2
+      omega
+    · intro i hi
+      rw [hc1t, htree]
+      exact hold _ _ (h.leaf i hi)
+    · intro i hi k' hk'
+      rw [hdata]; exact h.data i hi k' hk'
+  have hent : (Core.entryOf cs none c.header) = ({ treeNodes := nodeAt C bs d0 o0 :: downPath C bs d0 o0 k, treeUpgrade := none, bitfield := none }, c.header) := by
+    simp only [Core.entryOf, hup, Bool.false_eq_true, ite_false, hnodes]
+  rw [← hc1, ← htr, hent] at hrep1
+  simp only [hashCore, hashNodes, hk]
+  exact hrep1
+
 theorem apply_hash (C : Crypto) (hC : HashWF C) (bs : Array Bytes) (c : Core) (d : Disk) (held : Nat → Bool) (h : RepR C bs c d held)
     (d0 o0 : Nat) (hin0 : (o0 + 1) * 2 ^ d0 ≤ bs.size) :
     (c.verifyAndApply C d (honestHash C bs c d d0 o0)).result = .ok true
